@@ -60,7 +60,7 @@ Fixpoint data_ty (T : sty) : Prop :=
   | SArr a => data_ty a
   | SRec fs => (fix go (fs : list (string * sty)) : Prop :=
                   match fs with [] => True | (_, T) :: fs' => data_ty T /\ go fs' end) fs
-  | SVar _ | SFun _ _ => False
+  | SVar _ | SFun _ _ | SRow _ _ _ => False
   end.
 
 Lemma data_ty_nonvar : forall T, data_ty T -> is_svar T = false.
@@ -155,7 +155,7 @@ Qed.
 
 Theorem deep_rel : forall d T, data_ty T -> deep_ok d T.
 Proof.
-  intros d. induction T as [i| | | |a b IHa IHb|a IHa|fs IHfs] using sty_ind'; intros Hd; cbn [data_ty] in Hd;
+  intros d. induction T as [i| | | |a b IHa IHb|a IHa|fs IHfs|fs ri ex IHfs] using sty_ind'; intros Hd; cbn [data_ty] in Hd;
     try contradiction; intros v1 v2 HO n m2 r2 H Hne.
   - destruct (OR_num_inv _ _ _ HO) as [z [E1 E2]]. subst. exists 1. eapply deep_leaf; eauto.
   - destruct (OR_bool_inv _ _ _ HO) as [z [E1 E2]]. subst. exists 1. eapply deep_leaf; eauto.
@@ -233,15 +233,15 @@ Proof. reflexivity. Qed.
    exports (values and errors), for a parametric f, typed arguments and a first-order result type. *)
 Theorem parametric_annotation_same_export2 :
   forall sg a1 a2 b f arg1 arg2,
-    scoped 2 (SFun a1 (SFun a2 b)) -> (forall i, is_svar (sg i) = false) ->
+    scoped 2 (SFun a1 (SFun a2 b)) -> norow (SFun a1 (SFun a2 b)) -> (forall i, is_svar (sg i) = false) ->
     has_ty [] f (SFun a1 (SFun a2 b)) -> has_ty [] arg1 (inst sg a1) -> has_ty [] arg2 (inst sg a2) ->
     data_ty (inst sg b) ->
     forall n r, run_data cfg_real n (App (App f arg1) arg2) = r -> r <> OutOfFuel ->
       exists m, run_data cfg_real m
                   (App (App (Ann (TForall "a" KType (TForall "b" KType (sty_ty names2 (SFun a1 (SFun a2 b))))) f) arg1) arg2) = r.
 Proof.
-  intros sg a1 a2 b f arg1 arg2 Hsc Hsg Hf H1 H2 Hb n r Hev Hne.
-  pose proof (parametric_transparent 2 (fun i => i) sg dtriv _ f [] Hsc Hsg Hf) as Ht. cbn [inst] in Ht.
+  intros sg a1 a2 b f arg1 arg2 Hsc Hnr Hsg Hf H1 H2 Hb n r Hev Hne.
+  pose proof (parametric_transparent 2 (fun i => i) sg dtriv _ f [] Hsc (norow_rows_ok sg _ Hnr) Hsg Hf) as Ht. cbn [inst] in Ht.
   pose proof (lift_app _ _ _ _ _ _ _ _ _ Ht (typed_self_related arg1 _ [] H1)) as Ht1.
   pose proof (lift_app _ _ _ _ _ _ _ _ _ Ht1 (typed_self_related arg2 _ [] H2)) as Ht2.
   rewrite run_data_export in Hev.
@@ -254,7 +254,7 @@ Proof.
   { intros k. destruct k as [|k]; [reflexivity|]. rewrite !ev_S. cbn [step].
     destruct k as [|k]; [reflexivity|]. rewrite !ev_S. cbn [step].
     destruct k as [|k]; [reflexivity|]. rewrite !ev_S. cbn [step].
-    rewrite (contract_of_forall2 _ Hsc). reflexivity. }
+    rewrite (contract_of_forall2 _ Hsc Hnr). reflexivity. }
   unfold export in *. rewrite <- Hsame.
   apply bind_inv in Hm; [|exact Hne].
   destruct Hm as [[v [Hg Hd]]|[e [Hg Hr]]].
@@ -273,7 +273,7 @@ Example map_same_export_hypotheses :
   let a1 := SFun (SVar 0) (SVar 1) in
   let a2 := SArr (SVar 0) in
   let b := SArr (SVar 1) in
-  scoped 2 (SFun a1 (SFun a2 b)) /\ has_ty [] map_impl (SFun a1 (SFun a2 b))
+  scoped 2 (SFun a1 (SFun a2 b)) /\ norow (SFun a1 (SFun a2 b)) /\ has_ty [] map_impl (SFun a1 (SFun a2 b))
   /\ has_ty [] (Lam "y" (Op2 Add (Var "y") (Num 1))) (inst sg a1)
   /\ has_ty [] (Arr [Num 1; Num 2]) (inst sg a2) /\ data_ty (inst sg b)
   /\ run_line cfg_real 30 (App (App map_impl (Lam "y" (Op2 Add (Var "y") (Num 1)))) (Arr [Num 1; Num 2])) = "OK [#2,#3]"
@@ -281,7 +281,51 @@ Example map_same_export_hypotheses :
        (App (App (Ann (TForall "a" KType (TForall "b" KType (sty_ty names2 (SFun a1 (SFun a2 b))))) map_impl)
                  (Lam "y" (Op2 Add (Var "y") (Num 1)))) (Arr [Num 1; Num 2])) = "OK [#2,#3]".
 Proof.
-  cbn [scoped has_ty inst data_ty map_impl lookup String.eqb Ascii.eqb Bool.eqb].
+  cbn [scoped norow has_ty inst data_ty map_impl lookup String.eqb Ascii.eqb Bool.eqb].
   repeat split; try lia; try reflexivity.
   exists (SVar 0). split; reflexivity.
+Qed.
+
+(* one argument, any quantifier prefix, row variables included: the exported result is the same *)
+Theorem parametric_same_export :
+  forall nv keys sg a b f arg,
+    scoped nv (SFun a b) -> rows_ok sg (SFun a b) -> (forall i, is_svar (sg i) = false) ->
+    has_ty [] f (SFun a b) -> has_ty [] arg (inst sg a) -> data_ty (inst sg b) ->
+    forall n r, run_data cfg_real n (App f arg) = r -> r <> OutOfFuel ->
+      exists m, run_data cfg_real m (App (Chk (foralls (var_keys keys nv) (sty_ctr keys (SFun a b))) lbl0 f) arg) = r.
+Proof.
+  intros nv keys sg a b f arg Hsc Hro Hsg Hf Harg Hb n r Hev Hne.
+  pose proof (parametric_transparent nv keys sg dtriv _ f [] Hsc Hro Hsg Hf) as Ht. cbn [inst] in Ht.
+  pose proof (lift_app _ _ _ _ _ _ _ _ _ Ht (typed_self_related arg _ [] Harg)) as Ht1.
+  rewrite run_data_export in Hev.
+  destruct (export_same dtriv _ _ _ Hb Ht1 n r Hev Hne) as [m Hm].
+  exists m. rewrite run_data_export. exact Hm.
+Qed.
+
+(* T1, end to end: a function that only passes a row-polymorphic record around (here: returns it, or
+   projects a listed field) gets the sealed tail back intact; the hypotheses are satisfiable *)
+Definition row_sty : sty := SRow [("fa", SNum)] 0 ["fa"; "fa"].
+
+Example tail_preserved_hypotheses :
+  let sg := fun _ : nat => SRec [("tb", SNum)] in
+  scoped 1 (SFun row_sty row_sty) /\ rows_ok sg (SFun row_sty row_sty)
+  /\ (forall i, is_svar (sg i) = false)
+  /\ has_ty [] (Lam "x" (Var "x")) (SFun row_sty row_sty)
+  /\ has_ty [] (Lam "x" (Op1 (GetF "fa") (Var "x"))) (SFun row_sty SNum)
+  /\ has_ty [] (RecLit [("fa", Num 1); ("tb", Num 2)]) (inst sg row_sty)
+  /\ data_ty (inst sg row_sty)
+  /\ contract_of (TForall "r" KRow (TArrow (TRec [("fa", TNum)] (TlVar "r")) (TRec [("fa", TNum)] (TlVar "r"))))
+     = foralls (var_keys (fun i => i) 1) (sty_ctr (fun i => i) (SFun row_sty row_sty)).
+Proof.
+  cbn [scoped rows_ok has_ty inst data_ty row_sty lookup String.eqb Ascii.eqb Bool.eqb map fst].
+  repeat split; try lia; try reflexivity.
+  - constructor; [intros []|constructor].
+  - constructor; [intros []|constructor].
+  - exists [("tb", SNum)]. split; [reflexivity|]. split.
+    + constructor; [intros []|constructor].
+    + intros x [E|[]]. subst x. split; [intros [E|[]]; discriminate|reflexivity].
+  - exists [("tb", SNum)]. split; [reflexivity|]. split.
+    + constructor; [intros []|constructor].
+    + intros x [E|[]]. subst x. split; [intros [E|[]]; discriminate|reflexivity].
+  - right. exists [("fa", SNum)], 0, ["fa"; "fa"]. split; reflexivity.
 Qed.
